@@ -1152,6 +1152,10 @@ class sym_int(metaclass=_IntMeta):
         if isinstance(x, ZFQuot):
             if ENGINE.branch(x.d == 0):
                 raise modelled(ZeroDivisionError("division by zero"))
+            # CPython's int / int is correctly rounded and raises when the QUOTIENT does not fit a double
+            an, ad = z3.If(x.n >= 0, x.n, -x.n), z3.If(x.d >= 0, x.d, -x.d)
+            if ENGINE.branch(an >= ad * (2 ** 1024)):
+                raise modelled(OverflowError("integer division result too large for a float"))
             return ZInt(_fpq_int(x.n, x.d))
         return int(x, *a)
 
